@@ -7,7 +7,7 @@
    form = any caps), quota function with positive values, accept_quota_equal,
    mandatory_quota, eliminate_step.  asum = all weight held (continuing + exhausted). *)
 From Coq Require Import ZArith QArith List.
-From VL Require Import Prelude.PyDict Model.GetNBest Model.Convert Model.STV Proofs.STV_proofs.
+From VL Require Import Prelude.PyDict Model.GetNBest Model.Convert Model.STV Proofs.STV_proofs Proofs.STV_elim_proofs.
 Import ListNotations.
 Open Scope Q_scope.
 
@@ -50,6 +50,43 @@ Theorem C03_election_rule : forall cf q, 0 < q -> forall a n_rem prev caps el,
   forall c s, In (c, s) el -> (0 < s)%Z /\ exists p, alloc_get a (Some c) = Some p /\ inject_Z s * q <= wsum p.
 Proof. exact elect_by_quota_sound. Qed.
 
+(* elimination rule.  When the shortcut does not apply and nobody reaches the quota, next_count refuses with
+   NotImplementedError on a tie at the cut and otherwise transfers away exactly the candidates [eliminated cf a]:
+   - their number is the number of continuing candidates minus the retained count (for eliminate_step = -s:
+     min(s, continuing - 1));
+   - nobody eliminated holds strictly more than somebody retained;
+   - only continuing candidates are ranked: the exhausted pile (key None) is not among the contenders, whatever it holds. *)
+Theorem C03_elimination_step : forall cf a n total prev caps quota,
+  next_count cf a n total prev caps <> CR_all (flat_map (fun kt : option C * Q => match fst kt with
+                                         | Some c => [(c, (dget_or caps c 0 - dget_or prev c 0)%Z)]
+                                         | None => [] end) (sort_desc Qle_bool (totals a))) ->
+  quota = match c_quota cf with
+          | Some qf => if Qeq_bool total 0 || (n =? 0)%Z then None else Some (qf total n)
+          | None => None end ->
+  elect_by_quota cf (totals a) quota (n - zsum (map snd prev))%Z prev caps = inl None ->
+  next_count cf a n total prev caps =
+    if has_tie_r (retained cf a) then CR_stop S_nie
+    else CR_next (match eliminated cf a with [] => a | _ => transfer a (eliminated cf a) end) [].
+Proof. exact next_count_noquota. Qed.
+
+Theorem C03_elimination_count : forall cf a, NoDup (map fst (in_play a)) -> has_tie_r (retained cf a) = false ->
+  (1 <= retained_count cf (length (in_play a)) <= length (in_play a))%nat ->
+  length (eliminated cf a) = (length (in_play a) - retained_count cf (length (in_play a)))%nat.
+Proof. exact eliminated_count. Qed.
+
+Theorem C03_elimination_configured : forall cf m, (c_step cf < 0)%Z -> (1 <= m)%nat ->
+  (1 <= retained_count cf m <= m)%nat /\ (m - retained_count cf m = Nat.min (Z.to_nat (- c_step cf)) (m - 1))%nat.
+Proof. exact retained_count_neg. Qed.
+
+Theorem C03_elimination_lowest : forall cf a, NoDup (map fst (in_play a)) ->
+  (1 <= retained_count cf (length (in_play a)) <= length (in_play a))%nat ->
+  forall e ve c vc, In e (eliminated cf a) -> In (e, ve) (in_play a) ->
+    In (Cand c) (retained cf a) -> In (c, vc) (in_play a) -> ve <= vc.
+Proof. intros cf a Hnd Hk. exact (eliminated_lowest cf a Hnd Hk). Qed.
+
+Theorem C03_pile_not_a_contender : forall a c v, In (c, v) (in_play a) -> exists p, In (Some c, p) a.
+Proof. exact in_play_no_pile. Qed.
+
 (* a transferred ballot goes only to candidates still in the count *)
 Theorem C03_targets_continuing : forall vote cand allowed, incl (ranked_next vote cand allowed) allowed.
 Proof. exact ranked_next_allowed. Qed.
@@ -68,3 +105,8 @@ Print Assumptions C03_nonneg_transfer.
 Print Assumptions C03_nonneg_subtract.
 Print Assumptions C03_election_rule.
 Print Assumptions C03_targets_continuing.
+Print Assumptions C03_elimination_step.
+Print Assumptions C03_elimination_count.
+Print Assumptions C03_elimination_configured.
+Print Assumptions C03_elimination_lowest.
+Print Assumptions C03_pile_not_a_contender.
